@@ -81,8 +81,10 @@ Inductive qtemplate :=
                    (and left out of the row) for a document without that xattr *)
 | QUser         (* SELECT json_quote(id) AS id, xattrs->'$.u1' AS u FROM $_keyspace ORDER BY id : a user xattr (the xattrs
                    column of a document whose only xattr is a short one is itself a short blob) *)
-| QCross.       (* SELECT json_quote(a.id || b.id || c.id || d.id) AS id FROM $_keyspace a, $_keyspace b, $_keyspace c, $_keyspace d
+| QCross        (* SELECT json_quote(a.id || b.id || c.id || d.id) AS id FROM $_keyspace a, $_keyspace b, $_keyspace c, $_keyspace d
                    ORDER BY a.id, b.id, c.id, d.id : n^4 rows from n documents - a result longer than any buffer *)
+| QLit.         (* SELECT json_quote(id) AS id, json_quote('a  b') AS s FROM $_keyspace ORDER BY id : a string literal of the
+                   statement - two blanks in it - comes back as it was written *)
 
 Inductive sop :=
 | SKv (coll : string) (key : string) (op : kop)
@@ -315,6 +317,7 @@ Definition eval_query (q : qtemplate) (docs : list qdoc) : list string :=
                            end) sorted
   | QCross => let ids := map (fun d => fst (fst d)) sorted in
               flat_map (fun a => flat_map (fun b => flat_map (fun c => map (fun d => row_id (a ++ b ++ c ++ d)) ids) ids) ids) ids
+  | QLit => map (fun d => ("{""id"":" ++ quote (fst (fst d)) ++ ",""s"":""a  b""}")%string) sorted
   end.
 
 (* ------------------------------------------------------------------------------------------ *)
